@@ -205,8 +205,14 @@ func vr01Dash(s string) string {
 
 func vr01Res(f []string) string {
 	v4p, v6p, p := vr01BuildProfiles(f)
-	r := allocator.InitGlobalRegistry(v4p, v6p)
-	defer allocator.ResetGlobalRegistry()
+	var r *allocator.Registry
+	if f[0] == "resn" {
+		// no registry at all: GetGlobalRegistry() is nil, the registry ops go to a nil *Registry
+		allocator.ResetGlobalRegistry()
+	} else {
+		r = allocator.InitGlobalRegistry(v4p, v6p)
+		defer allocator.ResetGlobalRegistry()
+	}
 	var res []string
 	// contexts persist per session within a case: Y/Z start a fresh one, y/z re-enter with the kept one
 	c4 := map[string]*allocator.Context{}
